@@ -16,6 +16,7 @@ const (
 	ErrFileNotFound = 10
 	ErrReadFile     = 11
 	ErrReadVarInput = 12
+	ErrInvalidUTF8  = 13
 )
 
 func (e *IOError) Error() string {
@@ -47,6 +48,15 @@ func ReadFileError(err error, path string) *IOError {
 	return &IOError{
 		Code:    ErrReadFile,
 		Message: fmt.Sprintf("读取I/O流失败：%s", errText),
+		Path:    path,
+	}
+}
+
+// InvalidUTF8Encoding - the data is not valid UTF-8 (e.g. a GBK encoded file)
+func InvalidUTF8Encoding(path string) *IOError {
+	return &IOError{
+		Code:    ErrInvalidUTF8,
+		Message: "内容并非有效的 UTF-8 编码",
 		Path:    path,
 	}
 }
